@@ -3,6 +3,7 @@ import PV.IC10.Parse
 import PV.Src.Lang
 import PV.Model.Labels
 import PV.Model.AllocCheck
+import PV.Model.Regions
 /-! Driver commands that execute programs: `run-ic10`, `run-src`, `equiv`. -/
 namespace PV.DriverRun
 open Lean PV.IC10 PV.IC10.Parse
@@ -451,5 +452,66 @@ def runPair (j : Json) : Except String Json := do
     match r with
     | some why => pure (Json.mkObj [("verdict", Json.str "diverge"), ("detail", Json.str why), ("steps", Json.num (JsonNumber.fromNat n))])
     | none => pure (Json.mkObj [("verdict", Json.str (if outside then "outside-declared-successors" else "same")), ("steps", Json.num (JsonNumber.fromNat n))])
+
+/-! ### C07: regions -/
+
+def pairListOfJson (j : Json) : Except String (List (Nat × Nat)) := do
+  (← j.getArr?).toList.mapM (fun p => do
+    let a ← p.getArr?
+    pure ((← (a[0]!).getNat?), (← (a[1]!).getNat?)))
+
+/-- static region check (the function the theorem `checkFall_sound` is about) plus the list of offending edges -/
+def checkFallCmd (j : Json) : Except String Json := do
+  let text ← j.getObjValAs? String "text"
+  let owners ← natListOfJson (← j.getObjVal? "owners")
+  let entries ← natListOfJson (← j.getObjVal? "entries")
+  let allow ← pairListOfJson (← j.getObjVal? "allow")
+  match parseProgram text with
+  | .error e => pure (Json.mkObj [("verdict", Json.str "parse-error"), ("detail", Json.str e)])
+  | .ok pp =>
+    let oa := owners.toArray
+    let owner : Nat → Nat := fun n => oa.getD n 0
+    let ok := PV.Regions.checkFall FloatSem.sem pp.prog owner entries allow
+    let bad := pp.prog.zipIdx.flatMap (fun (i, pc) =>
+      match PV.Cfg.succs FloatSem.sem pc i with
+      | some l => (l.filter (fun n => !PV.Regions.edgeOk pp.prog.length owner entries allow pc i.kind n)).map (fun n => (pc, n))
+      | none => [])
+    pure (Json.mkObj [("verdict", Json.str (if ok then "accept" else "reject")),
+      ("bad_edges", Json.arr (bad.map (fun (a, b) => Json.arr #[Json.num (JsonNumber.fromNat a), Json.num (JsonNumber.fromNat b)])).toArray)])
+
+/-- run and report every step that enters another region otherwise than by a call to an entry or a jump through a register -/
+partial def runRegionsLoop (env : Env Float) (P : List (Instr PReg Float)) (owner : Nat → Nat) (entries : List Nat) (budget : Nat)
+    (s : St PReg Float) (acc : List (Nat × Nat × Nat)) : St PReg Float × List (Nat × Nat × Nat) :=
+  if budget == 0 || s.halted then (s, acc) else
+  let s' := compactMem (compactRegs (step FloatSem.sem env P s))
+  let acc' := match P[s.pc]? with
+    | some i =>
+      if s'.halted || s'.pc ≥ P.length || owner s'.pc == owner s.pc then acc
+      else if (PV.Cfg.succs FloatSem.sem s.pc i).isNone then acc
+      else if PV.Regions.isCall i.kind && entries.contains s'.pc then acc
+      else (s.pc, s'.pc, s.trace.length) :: acc
+    | none => acc
+  runRegionsLoop env P owner entries (budget - 1) s' acc'
+
+def runRegions (j : Json) : Except String Json := do
+  let text ← j.getObjValAs? String "text"
+  let owners ← natListOfJson (← j.getObjVal? "owners")
+  let entries ← natListOfJson (← j.getObjVal? "entries")
+  let seed ← j.getObjValAs? Nat "seed"
+  let steps ← j.getObjValAs? Nat "steps"
+  let pool ← poolOf (← j.getObjVal? "pool")
+  match parseProgram text with
+  | .error e => pure (Json.mkObj [("verdict", Json.str "parse-error"), ("detail", Json.str e)])
+  | .ok pp =>
+    let oa := owners.toArray
+    let owner : Nat → Nat := fun n => oa.getD n 0
+    let (s, acc) := runRegionsLoop (envF seed pool) pp.prog owner entries steps initSt []
+    -- effects performed after the first illegal entry
+    let firstBad := acc.reverse.head?
+    pure (Json.mkObj [
+      ("halted", Json.bool s.halted), ("pc", Json.num (JsonNumber.fromNat s.pc)), ("trace_len", Json.num (JsonNumber.fromNat s.trace.length)),
+      ("illegal_entries", Json.arr (acc.reverse.map (fun (a, b, t) => Json.arr #[Json.num (JsonNumber.fromNat a), Json.num (JsonNumber.fromNat b), Json.num (JsonNumber.fromNat t)])).toArray),
+      ("effects_after_first", Json.num (JsonNumber.fromNat (match firstBad with | some (_, _, t) => s.trace.length - t | none => 0))),
+      ("lines", Json.num (JsonNumber.fromNat pp.prog.length))])
 
 end PV.DriverRun
